@@ -20,9 +20,9 @@ import (
 // (seeded changes applied to a scratch copy) VERIF_REPO names another checkout and VERIF_OUT another output root.
 var (
 	repoDir    = envOr("VERIF_REPO", "/repo")
-	verifDir   = "/verif"
+	verifDir   = envOr("VERIF_HOME", "/verif") // known_findings.json is read from here
 	outDir     = envOr("VERIF_OUT", "/verif")
-	harnessDir = "/verif/harness"
+	harnessDir = envOr("VERIF_HARNESS", "/verif/harness")
 	workDir    = filepath.Join(envOr("VERIF_OUT", "/verif"), ".work")
 )
 
